@@ -32,9 +32,14 @@
 //! Streams: `held` (seeded histories), `d5` (directed: the smallest histories in which the files a
 //! cursor has not opened yet are retired under it), `conc` (writers, the flush loop and the
 //! compaction loop as real threads while the main thread steps cursors opened at quiescent
-//! points; traces vary with the schedule, verdicts do not), `race` (cursors opened WHILE a writer
-//! thread runs, each walked twice: both walks must show the same — finding D-6, whose directed
-//! schedules and proof belong to C06).
+//! points; traces vary with the schedule, verdicts do not), `window` (directed through the pause
+//! hook: scans opened while an earlier-numbered batch is half inserted and a later-numbered write
+//! has inserted and queues behind it; request `snap open`: the model computes the read timestamp
+//! from the numbers in flight), `race2` (scans opened at arbitrary moments while a batch writer
+//! and a side writer run freely, each walked twice: one round per batch, both walks equal, nothing
+//! stale, nothing from the future, read timestamp below every write in flight).  The last two
+//! are the property's "never shows a write that completed after the scan was opened" for writes
+//! that OVERLAP the open (finding D-6 and its relatives; the proof for all interleavings is C06).
 use crate::c01::{d9_trigger, state_with_ids};
 use crate::common::*;
 use crate::store::*;
@@ -49,6 +54,9 @@ use std::panic::AssertUnwindSafe;
 /// cursor was opened on by one that no longer lists one of its files, and the cursor was used
 /// (or its files were looked for) afterwards
 const D5: &str = "cursor-held-across-retirement-of-its-files";
+
+/// a scan shows (part of) a write that had not finished inserting when the scan was opened
+const LATE: &str = "scan-shows-write-completed-after-open";
 
 // ============================================================================ cursor programs ==
 
@@ -244,6 +252,15 @@ struct Held {
     /// called while other threads move the store (stream `conc`): a retirement seen after the
     /// phase may have happened before any of those calls
     called_concurrently: bool,
+    /// stream `window`: the sequence numbers of the writes that were in flight (number assigned,
+    /// wait list not yet left) when the scan took its snapshot, as the hooks saw them under the
+    /// store's mutex; the model computes the read timestamp from them
+    inflight: Option<Vec<u64>>,
+    /// stream `window`: what the cursor may show instead if a write that had inserted all its
+    /// entries but had not returned when the scan was opened counts as before the scan
+    alt_want: Option<Vec<Shown>>,
+    /// the read timestamp the scan took (event `kvs.scan.ts`), for the report
+    read_ts: Option<u64>,
 }
 
 fn version_files(d: &StateDump) -> Vec<String> {
@@ -526,6 +543,9 @@ impl Hist {
             used_after_retire: false,
             unlinked_under: false,
             called_concurrently: false,
+            inflight: None,
+            alt_want: None,
+            read_ts: None,
         });
     }
 
@@ -591,6 +611,10 @@ impl Hist {
         let req_a = format!("kvs scan {} :: {} :: {}", c.open_state, bounds, render_ops(prog));
         let req_b = format!("snap run {} :: {} :: {}", c.open_state, bounds, c.script.join(" "));
         let observed = if c.rendered.is_empty() { "-".to_string() } else { c.rendered.join(" ") };
+        let req_a = match &c.inflight {
+            Some(inf) => format!("snap open {} :: {} :: {} :: {}", c.open_state, if inf.is_empty() { "-".to_string() } else { inf.iter().map(|x| x.to_string()).collect::<Vec<_>>().join(",") }, bounds, c.script.join(" ")),
+            None => req_a,
+        };
         let d5 = c.retired_under && (c.used_after_retire || c.called_concurrently);
         let mut bad = vec![];
         if let Err(p) = dropped {
@@ -598,7 +622,7 @@ impl Hist {
         }
         if let Some(e) = &c.err {
             bad.push(format!("call {} of [{}] failed: {}", c.done.saturating_sub(1), render_ops(prog), e));
-        } else if c.got[..] != c.want[..c.done] {
+        } else if c.got[..] != c.want[..c.done] && c.alt_want.as_ref().map(|a| c.got[..] != a[..c.done]).unwrap_or(true) {
             let j = (0..c.done).find(|&j| c.got[j] != c.want[j]).unwrap();
             let f = |x: &Shown| x.as_ref().map(|(k, v)| format!("{}={}", hex(k), hex(v)));
             bad.push(format!("call {} of [{}] bounds {} shows {:?}, the store had {:?} there when the scan was opened", j, render_ops(prog), bounds, f(&c.got[j]), f(&c.want[j])));
@@ -606,14 +630,20 @@ impl Hist {
         let verdict = if bad.is_empty() {
             Verdict::Ok
         } else {
-            let class = if d5 {
+            let class = if d5 && c.err.is_some() {
                 D5.to_string()
+            } else if c.inflight.is_some() && c.err.is_none() {
+                LATE.to_string()
             } else if c.err.is_some() {
                 "held-cursor-error".to_string()
             } else {
                 "held-cursor-differs-from-open-time-snapshot".to_string()
             };
-            Verdict::Fail { class, detail: format!("{} cursor {} opened {} held across {} event(s): {}", self.tag, c.id, c.opened_at, c.events_crossed, bad.join("; ")) }
+            let ts = match (&c.inflight, c.read_ts) {
+                (Some(inf), Some(t)) => format!(" (read timestamp {}, writes in flight at open: {:?})", t, inf),
+                _ => String::new(),
+            };
+            Verdict::Fail { class, detail: format!("{} cursor {} opened {} held across {} event(s){}: {}", self.tag, c.id, c.opened_at, c.events_crossed, ts, bad.join("; ")) }
         };
         let second = match &verdict {
             Verdict::Fail { class, .. } => Verdict::Taint { class: class.clone() },
@@ -661,6 +691,14 @@ impl Hist {
             if let Verdict::Fail { class, detail } = verdict {
                 self.fail(&class, detail);
             }
+            return;
+        }
+        if c.inflight.is_some() {
+            // stream `window`: one request, the model computes the read timestamp itself
+            rec.count("window.cursors");
+            let nontrivial = c.snapshot_len >= 2 && c.inflight.as_ref().map(|i| !i.is_empty()).unwrap_or(false);
+            self.impl_log.push(observed.clone());
+            rec.case(&req_a, &observed, verdict, if nontrivial { Some(fnv(req_a.as_bytes())) } else { None });
             return;
         }
         self.impl_log.push(observed.clone());
@@ -1513,65 +1551,475 @@ impl Hist {
     }
 }
 
-// ==================================================================================== race ====
+// ================================================================================== window ====
 
-/// Finding D-6 seen from a held cursor, without hooks (C06 owns the finding and replays it under
-/// directed schedules; it is repaired in /repo): a writer
-/// thread overwrites one key as fast as it can while the main thread opens a cursor, walks it,
-/// waits for a few more writes and walks the SAME cursor again.  A snapshot shows the same on both
-/// walks; a writer that had its sequence number but not yet its memtable entry when the scan was
-/// opened appears on the second walk only.  Returns (cursors, cursors whose two walks differ).
-pub fn racy_open(root: &str, iters: u64) -> (u64, u64) {
-    use std::sync::atomic::{AtomicBool, Ordering};
-    let cfg = Cfg { memtable_bytes: 1 << 20, target_file: 1 << 22, min_file: 1 << 12, target_block: 4096, l0_mandatory_files: 4, l0_stall_files: 12, max_compaction_files: 64, gc_versions: 1, mani_ratio: 10 };
+use std::sync::{Arc, Condvar, Mutex};
+
+thread_local! {
+    /// who the calling thread is for the pause hook: 1 batch writer, 2 side writer, 3 scanner
+    static ROLE: std::cell::Cell<u8> = const { std::cell::Cell::new(0) };
+}
+
+#[derive(Default)]
+struct WinSt {
+    /// writes whose number has been assigned and that have not left the wait list; kept under
+    /// the store's mutex (`kvs.write.begin.locked` / `kvs.write.finish.locked`)
+    inflight: BTreeSet<u64>,
+    /// park the batch writer after the insert with this index
+    park_idx: Option<u64>,
+    b_parked: bool,
+    release: bool,
+    s_inserted: bool,
+    /// what the scanner's last `range_scan` saw: writes in flight under the mutex, timestamp taken
+    snap_inflight: Vec<u64>,
+    scan_ts: Option<u64>,
+    /// free-running stream: spin this long after each insert of the batch writer
+    widen_ns: u64,
+}
+
+struct Win {
+    m: Mutex<WinSt>,
+    cv: Condvar,
+}
+
+fn install_window_hook(w: &Arc<Win>) {
+    let w = Arc::clone(w);
+    lsmtk::verif::set_pause_hook(Some(Arc::new(move |tag: &'static str, args: [u64; 3]| {
+        let role = ROLE.with(|r| r.get());
+        match tag {
+            "kvs.write.begin.locked" => {
+                w.m.lock().unwrap().inflight.insert(args[0]);
+            }
+            "kvs.write.finish.locked" => {
+                w.m.lock().unwrap().inflight.remove(&args[0]);
+            }
+            "kvs.write.insert" if role == 1 => {
+                let mut st = w.m.lock().unwrap();
+                if st.park_idx == Some(args[1]) {
+                    st.park_idx = None;
+                    st.b_parked = true;
+                    w.cv.notify_all();
+                    while !st.release {
+                        st = w.cv.wait(st).unwrap();
+                    }
+                } else if st.widen_ns > 0 {
+                    let ns = st.widen_ns;
+                    drop(st);
+                    let t0 = std::time::Instant::now();
+                    while (t0.elapsed().as_nanos() as u64) < ns {
+                        std::hint::spin_loop();
+                    }
+                }
+            }
+            "kvs.write.inserted" if role == 2 => {
+                let mut st = w.m.lock().unwrap();
+                st.s_inserted = true;
+                w.cv.notify_all();
+            }
+            "kvs.scan.snap.locked" if role == 3 => {
+                let mut st = w.m.lock().unwrap();
+                st.snap_inflight = st.inflight.iter().copied().collect();
+            }
+            "kvs.scan.ts" if role == 3 => {
+                w.m.lock().unwrap().scan_ts = Some(args[0]);
+            }
+            _ => {}
+        }
+    })));
+}
+
+/// stream `window`: a scan opened while an earlier-numbered batch is still inserting and a
+/// later-numbered write has already inserted.  Directed through the pause hook: the batch writer
+/// is parked right after its insert number `j` (entries `0..=j` of the batch are in the skiplist,
+/// the rest is not); the side writer runs until it has inserted its entry and queues behind the
+/// batch in the wait list; two scans are opened (the store is at rest: the state is dumped); one
+/// is walked at once; the batch writer is released, both writes return; both scans are walked
+/// (again).  What a scan may show: the acknowledged state at open time — the batch had not
+/// finished inserting, so nothing of it; the side write had inserted everything and may or may
+/// not count as before the scan (both accepted, consistently).
+pub fn run_window(rec: &mut Recorder, seed: u64, idx: u64) -> Vec<String> {
+    let mut rng = Rng::for_case(seed, 307, idx);
+    let cfg = Cfg { memtable_bytes: 1 << 20, target_file: *rng.pick(&[512, 1 << 22]), min_file: 64, target_block: *rng.pick(&[64, 4096]), l0_mandatory_files: 2, l0_stall_files: 12, max_compaction_files: 64, gc_versions: *rng.pick(&[1, 2]), mani_ratio: 2 };
+    let cache = *rng.pick(&[0u64, 1 << 26]);
+    let nkeys = 8usize;
+    let root = scratch_dir(&format!("c07.win.{}", idx));
+    let tag = format!("win{}", idx);
+    let mut h = match new_hist(&root, &cfg, cache, &tag) {
+        Ok(h) => h,
+        Err(e) => {
+            rec.case(&format!("# window {} open", idx), "#", Verdict::Fail { class: "open-error".into(), detail: e }, None);
+            return vec!["#".to_string()];
+        }
+    };
+    // the batch: 2..5 keys in a seeded order (the order of the memtable inserts); a side key
+    let mut ks: Vec<usize> = (0..nkeys).collect();
+    rng.shuffle(&mut ks);
+    let n = *rng.pick(&[2usize, 3, 3, 5]);
+    let batch_keys: Vec<Vec<u8>> = ks[..n].iter().map(|i| ALPHABET[*i].to_vec()).collect();
+    let side_key = ALPHABET[ks[n]].to_vec();
+    let park = rng.below(n as u64 - 1);
+    let base_rounds = rng.range(1, 2);
+    let base_flushed = rng.below(3); // 0: memtable only, 1: flushed, 2: flushed and moved down
+    let second_walk_backward = rng.chance(1, 2);
+    rec.aux(&format!("window {} cfg {} cache {} batch {:?} side {} park-after-insert {} base rounds {} flushed {}", idx, cfg.render(), cache, batch_keys.iter().map(|k| hex(k)).collect::<Vec<_>>(), hex(&side_key), park, base_rounds, base_flushed));
+    let win = Arc::new(Win { m: Mutex::new(WinSt::default()), cv: Condvar::new() });
+    let r: Result<(), String> = (|| {
+        let round_val = |r: u64| format!("r{}", r).into_bytes();
+        for r in 0..base_rounds {
+            h.write(&Op::Batch(batch_keys.iter().map(|k| (k.clone(), Some(round_val(r)))).collect()))?;
+            h.write(&Op::Put(side_key.clone(), format!("s{}", r).into_bytes()))?;
+            if rng.chance(1, 3) {
+                h.write(&Op::Del(ALPHABET[ks[n + 1]].to_vec()))?;
+            }
+        }
+        if base_flushed >= 1 {
+            h.flush()?;
+        }
+        if base_flushed == 2 {
+            h.compact_all(4)?;
+            h.write(&Op::Put(ALPHABET[ks[n + 1]].to_vec(), b"x".to_vec()))?;
+        }
+        let round = base_rounds;
+        let batch: Vec<(Vec<u8>, Vec<u8>)> = batch_keys.iter().map(|k| (k.clone(), round_val(round))).collect();
+        let side_val = format!("s{}", round).into_bytes();
+        let gen_before = h.cur_gen();
+        let trash_before = short(h.sim.listing().get("trash").unwrap());
+        let seq_b = h.sim.kvs().verif_state().0 + 1;
+        win.m.lock().unwrap().park_idx = Some(park);
+        install_window_hook(&win);
+        let kvs: &KeyValueStore = unsafe { &*(h.sim.kvs() as *const KeyValueStore) };
+        let hp: *mut Hist = &mut h;
+        let errors: Mutex<Vec<String>> = Mutex::new(vec![]);
+        let mut stuck = None;
+        std::thread::scope(|s| {
+            let (batch, errors, win) = (&batch, &errors, &win);
+            s.spawn(move || {
+                ROLE.with(|r| r.set(1));
+                let mut wb = lsmtk::WriteBatch::with_capacity(batch.len());
+                for (k, v) in batch {
+                    wb.put(k, v);
+                }
+                if let Err(e) = kvs.write(wb) {
+                    errors.lock().unwrap().push(format!("batch write: {}", err_enum(&e)));
+                }
+            });
+            let wait = |pred: &dyn Fn(&WinSt) -> bool| -> bool {
+                let mut st = win.m.lock().unwrap();
+                let t0 = std::time::Instant::now();
+                while !pred(&st) {
+                    if t0.elapsed().as_secs() >= 10 {
+                        return false;
+                    }
+                    st = win.cv.wait_timeout(st, std::time::Duration::from_millis(50)).unwrap().0;
+                }
+                true
+            };
+            if !wait(&|st| st.b_parked) {
+                stuck = Some("the batch writer did not reach its parking point");
+            }
+            let (side_key, side_val) = (&side_key, &side_val);
+            s.spawn(move || {
+                ROLE.with(|r| r.set(2));
+                if let Err(e) = kvs.put(side_key, side_val) {
+                    errors.lock().unwrap().push(format!("side write: {}", err_enum(&e)));
+                }
+            });
+            if stuck.is_none() && !wait(&|st| st.s_inserted) {
+                stuck = Some("the side writer did not finish its insert");
+            }
+            // the side writer now takes the store's mutex and queues behind the batch writer in
+            // the wait list (nothing to observe from outside: give it a moment)
+            std::thread::sleep(std::time::Duration::from_millis(2));
+            if stuck.is_none() {
+                // SAFETY: the other threads use `kvs` only; `*hp` is touched by this thread only
+                let h = unsafe { &mut *hp };
+                ROLE.with(|r| r.set(3));
+                let mut alt = h.sim.oracle.clone();
+                alt.insert(side_key.clone(), Some(side_val.clone()));
+                for c in 0..2 {
+                    let lo = if rng.chance(2, 3) { Bound::Unbounded } else { gen_bound(&mut rng, nkeys) };
+                    let hi = if rng.chance(2, 3) { Bound::Unbounded } else { gen_bound(&mut rng, nkeys) };
+                    let mut prog = vec![COp::First];
+                    for _ in 0..nkeys + 1 {
+                        prog.push(COp::Next);
+                    }
+                    let first_walk = prog.len();
+                    if second_walk_backward {
+                        prog.push(COp::Last);
+                        for _ in 0..nkeys + 1 {
+                            prog.push(COp::Prev);
+                        }
+                    } else {
+                        prog.push(COp::First);
+                        for _ in 0..nkeys + 1 {
+                            prog.push(COp::Next);
+                        }
+                    }
+                    let alt_list: Vec<(Vec<u8>, Vec<u8>)> = alt.iter().filter_map(|(k, v)| v.as_ref().map(|v| (k.clone(), v.clone()))).filter(|(k, _)| in_range(k, &lo, &hi)).collect();
+                    let alt_want = ref_run(&alt_list, &prog);
+                    let id = h.next_id;
+                    win.m.lock().unwrap().scan_ts = None;
+                    h.open_cursor(Spec { lo, hi, prog, shape: if second_walk_backward { 3 } else { 0 } }, "while-a-batch-is-half-inserted");
+                    if let Some(i) = h.index_of(id) {
+                        let st = win.m.lock().unwrap();
+                        h.cursors[i].inflight = Some(st.snap_inflight.clone());
+                        h.cursors[i].read_ts = st.scan_ts;
+                        drop(st);
+                        h.cursors[i].alt_want = Some(alt_want);
+                        if c == 0 {
+                            // walked once before the rest of the batch arrives
+                            h.step_cursor(i, first_walk);
+                        } else {
+                            h.cursors[i].untouched_before_first_event = true;
+                        }
+                    }
+                }
+                ROLE.with(|r| r.set(0));
+            }
+            let mut st = win.m.lock().unwrap();
+            st.release = true;
+            win.cv.notify_all();
+        });
+        lsmtk::verif::set_pause_hook(None);
+        if let Some(what) = stuck {
+            h.fail("schedule-not-reached", format!("{} {}", h.tag.clone(), what));
+        }
+        for e in errors.lock().unwrap().iter() {
+            h.fail("fault-free-op-error", format!("{} {}", h.tag.clone(), e));
+        }
+        // both writes have returned
+        for (k, v) in &batch {
+            h.sim.oracle.insert(k.clone(), Some(v.clone()));
+        }
+        h.sim.oracle.insert(side_key.clone(), Some(side_val.clone()));
+        *h.gen_nodes.entry(gen_before).or_insert(1) += batch.len() + 1;
+        // what arrived in the captured memtable after the scans were opened: the rest of the batch
+        let late = format!("w:{}", batch[(park as usize + 1)..].iter().map(|(k, v)| format!("{}@{}={}", hex(k), seq_b, hex(v))).collect::<Vec<_>>().join(","));
+        for c in h.cursors.iter_mut() {
+            c.script.push(late.clone());
+        }
+        rec.count("window.schedules");
+        rec.count(&format!("window.base_{}", ["in_memtable", "flushed", "flushed_and_moved"][base_flushed as usize]));
+        rec.count(if second_walk_backward { "window.second_walk_backward" } else { "window.second_walk_forward" });
+        h.after_event("window", gen_before, &trash_before)?;
+        // a scan opened afterwards shows both writes
+        let mut prog = vec![COp::First];
+        for _ in 0..nkeys + 1 {
+            prog.push(COp::Next);
+        }
+        h.open_cursor(Spec { lo: Bound::Unbounded, hi: Bound::Unbounded, prog, shape: 0 }, "after-both-writes-returned");
+        for i in 0..h.cursors.len() {
+            let n = h.cursors[i].spec.prog.len();
+            h.step_cursor(i, n);
+        }
+        while !h.cursors.is_empty() {
+            h.close_cursor(rec, 0);
+        }
+        Ok(())
+    })();
+    lsmtk::verif::set_pause_hook(None);
+    if let Err(e) = r {
+        let t = h.tag.clone();
+        h.fail("fault-free-op-error", format!("{} {}", t, e));
+    }
+    finish_hist(rec, h)
+}
+
+// =================================================================================== race2 ====
+
+#[derive(Debug, Default)]
+pub struct Race2 {
+    pub scans: u64,
+    pub with_inflight: u64,
+    pub with_two_inflight: u64,
+    pub rounds: u64,
+    pub side_puts: u64,
+    pub backward: u64,
+    pub bad: u64,
+    pub bad_torn: u64,
+    pub bad_unstable: u64,
+    pub bad_range: u64,
+    pub bad_ts: u64,
+    pub first_bad: Option<String>,
+}
+
+/// stream `race2`: no schedule is imposed.  A batch writer rewrites four keys per round (value =
+/// round number; the pause hook only makes each of its memtable inserts take a little longer), a
+/// side writer puts other keys as fast as it can, and the main thread opens scans at arbitrary
+/// moments, walks each, waits for the next round to be acknowledged, and walks the SAME cursor
+/// again (forward or backward).  Checked without any model:
+///  * each walk shows all four batch keys with ONE round number (a batch is visible atomically);
+///  * both walks show the same entries (a held cursor is stable);
+///  * the round shown is at least the last one acknowledged before the scan was opened (nothing
+///    stale) and at most the last one started when `range_scan` returned (nothing from the future);
+///  * the read timestamp the scan took is below the number of every write that was in flight when
+///    it took its snapshot (hook bookkeeping under the store's mutex) — a scan whose timestamp
+///    covers a write that is still inserting will show entries that arrive later.
+pub fn race2(root: &str, seed: u64, iters: u64) -> Race2 {
+    use std::sync::atomic::{AtomicBool, AtomicU64, Ordering};
+    let mut out = Race2::default();
+    let cfg = Cfg { memtable_bytes: 1 << 22, target_file: 1 << 22, min_file: 1 << 12, target_block: 4096, l0_mandatory_files: 4, l0_stall_files: 12, max_compaction_files: 64, gc_versions: 1, mani_ratio: 10 };
     let sim = match open_sim(root, &cfg, 1 << 26) {
         Ok(s) => s,
-        Err(_) => return (0, 0),
+        Err(e) => {
+            out.bad = 1;
+            out.first_bad = Some(format!("open: {}", e));
+            return out;
+        }
     };
+    let mut rng = Rng::for_case(seed, 407, 0);
     let kvs = sim.kvs();
+    let batch_keys: Vec<Vec<u8>> = [1usize, 3, 5, 7].iter().map(|i| ALPHABET[*i].to_vec()).collect();
+    let side_keys: Vec<Vec<u8>> = [0usize, 2, 4, 6, 8].iter().map(|i| ALPHABET[*i].to_vec()).collect();
+    let write_round = |r: u64| -> Result<(), lsmtk::SError> {
+        let mut wb = lsmtk::WriteBatch::with_capacity(batch_keys.len());
+        // the insert order changes from round to round
+        for j in 0..batch_keys.len() {
+            wb.put(&batch_keys[(j + r as usize) % batch_keys.len()], format!("{}", r).as_bytes());
+        }
+        kvs.write(wb)
+    };
+    if write_round(0).is_err() {
+        out.bad = 1;
+        out.first_bad = Some("base round failed".into());
+        sim.close();
+        return out;
+    }
+    let win = Arc::new(Win { m: Mutex::new(WinSt { widen_ns: 20_000, ..Default::default() }), cv: Condvar::new() });
+    install_window_hook(&win);
     let stop = AtomicBool::new(false);
-    let mut unstable = 0u64;
-    let mut done = 0u64;
+    let started = AtomicU64::new(0);
+    let acked = AtomicU64::new(0);
+    let side_puts = AtomicU64::new(0);
     std::thread::scope(|s| {
         s.spawn(|| {
-            let mut n = 0u64;
-            while !stop.load(Ordering::SeqCst) {
-                n += 1;
-                let _ = kvs.put(b"k", format!("{}", n).as_bytes());
+            ROLE.with(|r| r.set(1));
+            let mut r = 0u64;
+            while !stop.load(Ordering::SeqCst) && r < 20_000 {
+                r += 1;
+                started.store(r, Ordering::SeqCst);
+                if write_round(r).is_err() {
+                    break;
+                }
+                acked.store(r, Ordering::SeqCst);
             }
         });
-        let walk = |c: &mut dyn Cursor| -> Option<Vec<(Vec<u8>, u64)>> {
-            c.seek_to_first().ok()?;
-            let mut out = vec![];
+        s.spawn(|| {
+            ROLE.with(|r| r.set(2));
+            let mut n = 0u64;
+            while !stop.load(Ordering::SeqCst) && n < 60_000 {
+                n += 1;
+                let _ = kvs.put(&side_keys[(n % side_keys.len() as u64) as usize], format!("{}", n).as_bytes());
+                side_puts.store(n, Ordering::SeqCst);
+            }
+        });
+        ROLE.with(|r| r.set(3));
+        type Walk = Vec<(Vec<u8>, u64, Vec<u8>)>;
+        let walk = |c: &mut dyn Cursor, backward: bool| -> Option<Walk> {
+            let mut v = vec![];
+            if backward {
+                c.seek_to_last().ok()?;
+            } else {
+                c.seek_to_first().ok()?;
+            }
             loop {
-                c.next().ok()?;
+                if backward {
+                    c.prev().ok()?;
+                } else {
+                    c.next().ok()?;
+                }
                 match c.key_value() {
-                    Some(kv) => out.push((kv.key.to_vec(), kv.timestamp)),
+                    Some(kv) => v.push((kv.key.to_vec(), kv.timestamp, kv.value.map(|x| x.to_vec()).unwrap_or_default())),
                     None => break,
                 }
             }
-            Some(out)
+            if backward {
+                v.reverse();
+            }
+            Some(v)
         };
-        for _ in 0..iters {
-            let Ok(mut c) = kvs.range_scan::<&[u8]>(&Bound::Unbounded, &Bound::Unbounded) else { continue };
-            let first = walk(&mut c);
-            let seq = kvs.verif_state().0;
-            while kvs.verif_state().0 < seq + 3 {
+        let rounds_of = |w: &Walk| -> Vec<Option<u64>> { batch_keys.iter().map(|k| w.iter().find(|e| &e.0 == k).and_then(|e| std::str::from_utf8(&e.2).ok().and_then(|s| s.parse().ok()))).collect() };
+        for i in 0..iters {
+            // arbitrary moment
+            for _ in 0..rng.below(400) {
+                std::hint::spin_loop();
+            }
+            let a0 = acked.load(Ordering::SeqCst);
+            win.m.lock().unwrap().scan_ts = None;
+            let Ok(mut c) = kvs.range_scan::<&[u8]>(&Bound::Unbounded, &Bound::Unbounded) else {
+                out.bad += 1;
+                out.first_bad.get_or_insert(format!("scan {}: range_scan failed", i));
+                continue;
+            };
+            let s1 = started.load(Ordering::SeqCst);
+            let (inflight, ts) = {
+                let st = win.m.lock().unwrap();
+                (st.snap_inflight.clone(), st.scan_ts)
+            };
+            let first = walk(&mut c, false);
+            let t0 = std::time::Instant::now();
+            while acked.load(Ordering::SeqCst) < a0 + 2 && t0.elapsed().as_millis() < 200 {
                 std::thread::yield_now();
             }
-            let second = walk(&mut c);
-            done += 1;
-            if first != second {
-                unstable += 1;
-                if std::env::var("BLUE_DEBUG").is_ok() && unstable <= 5 {
-                    eprintln!("read ts {} first {:?} second {:?}", seq, first, second);
+            let backward = i % 2 == 1;
+            let second = walk(&mut c, backward);
+            out.scans += 1;
+            if !inflight.is_empty() {
+                out.with_inflight += 1;
+            }
+            if inflight.len() >= 2 {
+                out.with_two_inflight += 1;
+            }
+            if backward {
+                out.backward += 1;
+            }
+            let mut bad = vec![];
+            match (&first, &second) {
+                (Some(f), Some(s2)) => {
+                    for (name, w) in [("first", f), ("second", s2)] {
+                        let rs = rounds_of(w);
+                        if rs.iter().any(|r| r.is_none()) || rs.iter().any(|r| *r != rs[0]) {
+                            out.bad_torn += 1;
+                            bad.push(format!("{} walk shows the batch keys at rounds {:?}: part of a batch", name, rs));
+                        } else if let Some(r) = rs[0] {
+                            if r < a0 || r > s1 {
+                                out.bad_range += 1;
+                            }
+                            if r < a0 {
+                                bad.push(format!("{} walk shows round {} although round {} had been acknowledged before the scan was opened", name, r, a0));
+                            }
+                            if r > s1 {
+                                bad.push(format!("{} walk shows round {}, which had not been started when range_scan returned (last started {})", name, r, s1));
+                            }
+                        }
+                    }
+                    if f != s2 {
+                        out.bad_unstable += 1;
+                        let d = f.iter().zip(s2.iter()).find(|(a, b)| a != b).map(|(a, b)| format!("{}@{} then {}@{}", hex(&a.0), a.1, hex(&b.0), b.1)).unwrap_or_else(|| format!("{} then {} entries", f.len(), s2.len()));
+                        bad.push(format!("the second walk ({}) of the same cursor differs from the first: {}", if backward { "backward" } else { "forward" }, d));
+                    }
                 }
+                _ => bad.push("a cursor call failed".to_string()),
+            }
+            if let (Some(t), Some(m)) = (ts, inflight.first()) {
+                if t >= *m {
+                    out.bad_ts += 1;
+                    bad.push(format!("read timestamp {} although write {} was still in flight (in flight: {:?})", t, m, inflight));
+                }
+            }
+            if !bad.is_empty() {
+                out.bad += 1;
+                out.first_bad.get_or_insert(format!("scan {}: {}", i, bad.join("; ")));
             }
         }
         stop.store(true, Ordering::SeqCst);
     });
+    lsmtk::verif::set_pause_hook(None);
+    ROLE.with(|r| r.set(0));
+    out.rounds = acked.load(Ordering::SeqCst);
+    out.side_puts = side_puts.load(Ordering::SeqCst);
     sim.close();
-    (done, unstable)
+    out
 }
 
 // ================================================================================ valgrind ====
@@ -1581,9 +2029,9 @@ pub fn racy_open(root: &str, iters: u64) -> (u64, u64) {
 pub fn child_run(rest: &[String]) -> ! {
     use std::io::Write as _;
     if rest.first().map(|s| s.as_str()) == Some("race") {
-        let iters: u64 = rest.get(1).and_then(|s| s.parse().ok()).unwrap_or(1000);
-        let (n, u) = racy_open(&scratch_dir("c07race"), iters);
-        println!("cursors {} unstable {}", n, u);
+        let iters: u64 = rest.get(1).and_then(|s| s.parse().ok()).unwrap_or(300);
+        let r = race2(&scratch_dir("c07race"), 1, iters);
+        println!("{:?}", r);
         std::process::exit(0);
     }
     let seed: u64 = rest.first().and_then(|s| s.parse().ok()).unwrap_or(1);
@@ -1591,7 +2039,13 @@ pub fn child_run(rest: &[String]) -> ! {
     let thorough = rest.get(2).map(|s| s == "thorough").unwrap_or(false);
     let dir = scratch_dir(&format!("c07child.{}", hidx));
     let mut rec = Recorder::new(&dir, None);
-    let log = if hidx >= 10000 { run_d5(&mut rec, hidx - 10000) } else { run_history(&mut rec, seed, hidx, thorough) };
+    let log = if hidx >= 20000 {
+        run_window(&mut rec, seed, hidx - 20000)
+    } else if hidx >= 10000 {
+        run_d5(&mut rec, hidx - 10000)
+    } else {
+        run_history(&mut rec, seed, hidx, thorough)
+    };
     let out = std::io::stdout();
     for l in log {
         writeln!(out.lock(), "{}", l).unwrap();
@@ -1655,24 +2109,37 @@ pub fn run(args: &Args) {
             eprintln!("conc {} took {} ms", i, t0.elapsed().as_millis());
         }
     }
-    // cursors opened WHILE a writer runs (finding D-6, repaired in /repo: the read timestamp is
-    // the last completed write's number): the same cursor walked twice shows the same twice
-    let (n, u) = racy_open(&scratch_dir("c07.race"), if args.thorough { 1500 } else { 400 });
-    rec.add("race.cursors_opened_while_a_writer_runs", n);
-    rec.add("race.cursors_whose_second_walk_differs_from_the_first", u);
-    let v = if u > 0 {
-        Verdict::Fail { class: "scan-opened-while-a-write-is-in-flight".into(), detail: format!("{} of {} cursors opened while a writer thread overwrites the key showed a newer version on their second walk than on their first: a write that was assigned its sequence number before the scan was opened and inserted afterwards (D-6)", u, n) }
-    } else {
-        Verdict::Ok
+    // scans opened while writes are in flight: directed schedules, then free-running threads
+    let nw = if args.thorough { 120 } else { 40 };
+    for i in 0..nw {
+        let log = run_window(&mut rec, args.seed, i);
+        if i == 0 {
+            logs.push((20000, log));
+        }
+    }
+    let r = race2(&scratch_dir("c07.race2"), args.seed, if args.thorough { 1200 } else { 300 });
+    rec.add("race2.scans_opened_while_two_writers_run", r.scans);
+    rec.add("race2.scans_opened_with_a_write_in_flight", r.with_inflight);
+    rec.add("race2.scans_opened_with_two_writes_in_flight", r.with_two_inflight);
+    rec.add("race2.batch_rounds", r.rounds);
+    rec.add("race2.side_puts", r.side_puts);
+    rec.add("race2.second_walk_backward", r.backward);
+    rec.add("race2.bad.part_of_a_batch", r.bad_torn);
+    rec.add("race2.bad.second_walk_differs", r.bad_unstable);
+    rec.add("race2.bad.round_stale_or_from_the_future", r.bad_range);
+    rec.add("race2.bad.timestamp_covers_write_in_flight", r.bad_ts);
+    let v = match &r.first_bad {
+        Some(d) => Verdict::Fail { class: LATE.into(), detail: format!("{} of {} scans opened while a batch writer and a side writer run: {}", r.bad, r.scans, d) },
+        None => Verdict::Ok,
     };
-    rec.case("# cursors opened while a writer runs, each walked twice", "#", v, None);
+    rec.case("# scans opened while a batch writer and a side writer run, each walked twice", "#", v, None);
     if args.thorough {
         for (hidx, log) in &logs {
             valgrind_replay(&mut rec, args.seed, *hidx, args.thorough, log);
         }
     }
     rec.finish(
-        "four streams. held: seeded single-stepped store histories (preamble of puts/deletes/batches/flushes/compaction steps/verifier passes, then 2-6 episodes); per episode 1-3 range-scan cursors (bounds unbounded/included/excluded over the key alphabet; programs of 3-18 calls: forward walk, backward walk, mixed with seeks and reversals, off-the-end-and-back) are opened between operations or inside a flush/compaction (observer call-outs), held across 0-6 events (write bursts, flush, compaction steps, verifier pass, retire = flush + compact until nothing is selectable + two verifier passes), stepped 0-5 calls between events, dropped early or at the end; SST cache 0 / 300 bytes / 64 MiB; clean reopens only between episodes. d5: twelve directed variants of the smallest history of finding D-5. conc: two writer threads, the flush loop and the compaction loop run as threads while the main thread walks cursors opened at quiescent points. race: 400 (thorough 1500) cursors opened while a writer thread overwrites one key, each walked twice (one case). Per cursor two requests (kvs scan = open-time state + whole program; snap run = the program interleaved with the later writes into the captured memtable), per store incarnation one refs run. non-trivial (cursor) = at least two live keys in range at open time, held across at least one event other than a verifier pass that removed nothing of it, and stepped after it; (refs) = at least one snapshot and one install; distinct by request",
+        "five streams. held: seeded single-stepped store histories (preamble of puts/deletes/batches/flushes/compaction steps/verifier passes, then 2-6 episodes); per episode 1-3 range-scan cursors (bounds unbounded/included/excluded over the key alphabet; programs of 3-18 calls: forward walk, backward walk, mixed with seeks and reversals, off-the-end-and-back) are opened between operations or inside a flush/compaction (observer call-outs), held across 0-6 events (write bursts, flush, compaction steps, verifier pass, retire = flush + compact until nothing is selectable + two verifier passes), stepped 0-5 calls between events, dropped early or at the end; SST cache 0 / 300 bytes / 64 MiB; clean reopens only between episodes. d5: twelve directed variants of the smallest history of finding D-5. conc: two writer threads, the flush loop and the compaction loop run as threads while the main thread walks cursors opened at quiescent points. window: 40 (thorough 120) directed schedules - a batch writer is parked between two of its memtable inserts (pause hook at kvs.write.insert), a side writer inserts its entry and queues behind it in the wait list, scans are opened in that window (one walked before the batch writer is released, one not touched until afterwards), the writers are released and the scans walked again forward or backward; the base state in the memtable or flushed to files; request = snap open (state dumped in the window + the sequence numbers in flight as the hooks saw them under the store mutex + program interleaved with the entries that arrived later). race2: 300 (thorough 1200) scans opened at arbitrary moments while a batch writer (all keys of a batch carry the round number) and a side writer run freely, the batch inserts widened by the pause hook, each scan walked twice (second walk forward or backward): one round per scan, both walks equal, round between last acknowledged before and last started after the open, read timestamp below every write in flight (one case). Per cursor two requests (kvs scan = open-time state + whole program; snap run = the program interleaved with the later writes into the captured memtable), per store incarnation one refs run. non-trivial (cursor) = at least two live keys in range at open time, held across at least one event other than a verifier pass that removed nothing of it, and stepped after it; (refs) = at least one snapshot and one install; distinct by request",
         &[],
     );
 }
